@@ -421,7 +421,7 @@ def run(ctx):
     ctx.extra["fixture_literals"] = len(fxs)
     rng = ctx.rng
     cov = G.Coverage()
-    n = ctx.budget(1100, 40000)
+    n = ctx.budget(950, 40000)
     for i in range(n):
         tx = G.gen_spec_tx(rng, cov)
         wire = G.gen_wire(rng, tx, cov, "c02")
